@@ -888,6 +888,7 @@ fn ctor_step(cx: &mut Ctx, st: &mut State, d: usize, which: u8, bs: u32, b1: &[u
     let (fa1, fa2): (Vec<u8>, Vec<u8>) = (arr::<64>(b1).to_vec(), if cap2(t) == 64 { arr::<64>(b2).to_vec() } else { arr::<32>(b2).to_vec() });
     let in_contract = if which < 2 { ctor_in_contract(t, which, bs, b1, b2, len1, len2) } else { ctor_in_contract(t, which, bs, &fa1, &fa2, len1, len2) };
     let logb = bs.min(255) as u8;
+    let dirty_before = st.slots[d];
     let mut work = st.slots[d];
     macro_rules! plain_ctor {
         ($ty:ty, $wrap:path, $s2:expr) => {{
@@ -983,7 +984,7 @@ fn ctor_step(cx: &mut Ctx, st: &mut State, d: usize, which: u8, bs: u32, b1: &[u
                 }
                 dirty_probe(cx, &before, &st.mdl[d].c);
                 cx.ev(true, format_args!("ctor s{} {} {} -> {}", d, TYPE_NAMES[t], name, h.text()));
-                unchecked_ctor_twin(cx, t, which, bs, b1, b2, len1, len2, &h);
+                unchecked_ctor_twin(cx, t, which, bs, b1, b2, len1, len2, &h, &dirty_before);
             }
         }
     }
@@ -999,7 +1000,7 @@ fn show_args(which: u8, bs: u32, b1: &[u8], b2: &[u8], len1: u8, len2: u8) -> St
 
 #[cfg(feature = "f-unchecked")]
 #[allow(clippy::too_many_arguments)]
-fn unchecked_ctor_twin(cx: &mut Ctx, t: usize, which: u8, bs: u32, b1: &[u8], b2: &[u8], len1: u8, len2: u8, checked: &H) {
+fn unchecked_ctor_twin(cx: &mut Ctx, t: usize, which: u8, bs: u32, b1: &[u8], b2: &[u8], len1: u8, len2: u8, checked: &H, dirty: &H) {
     // C14: the unchecked entry points agree with the checked ones whenever
     // their documented contracts hold (this is only called in contract).
     let logb = bs.min(255) as u8;
@@ -1011,7 +1012,12 @@ fn unchecked_ctor_twin(cx: &mut Ctx, t: usize, which: u8, bs: u32, b1: &[u8], b2
                     1 => $wrap(<$ty>::new_from_internals_near_raw_unchecked(logb, b1, b2)),
                     2 => $wrap(<$ty>::new_from_internals_raw_unchecked(logb, &arr::<64>(b1), &arr::<$s2>(b2), len1, len2)),
                     _ => {
-                        let mut x = <$ty>::new();
+                        // the in-place form, into the same (possibly dirty) object
+                        // the checked form has just been applied to
+                        let mut x = match dirty {
+                            $wrap(y) => *y,
+                            _ => <$ty>::new(),
+                        };
                         x.init_from_internals_raw_unchecked(logb, &arr::<64>(b1), &arr::<$s2>(b2), len1, len2);
                         $wrap(x)
                     }
@@ -1057,7 +1063,7 @@ fn unchecked_ctor_twin(cx: &mut Ctx, t: usize, which: u8, bs: u32, b1: &[u8], b2
 
 #[cfg(not(feature = "f-unchecked"))]
 #[allow(clippy::too_many_arguments)]
-fn unchecked_ctor_twin(_cx: &mut Ctx, _t: usize, _which: u8, _bs: u32, _b1: &[u8], _b2: &[u8], _len1: u8, _len2: u8, _checked: &H) {}
+fn unchecked_ctor_twin(_cx: &mut Ctx, _t: usize, _which: u8, _bs: u32, _b1: &[u8], _b2: &[u8], _len1: u8, _len2: u8, _checked: &H, _dirty: &H) {}
 
 fn record_norm(cx: &mut Ctx, st: &mut State, src: &[u8], dst: &[u8], what: &str) {
     // Every route that normalizes the same content must give the same result.
@@ -1675,9 +1681,19 @@ fn gen_ctor(rng: &mut Rng, dst: u8, out_of_contract: bool) -> Op {
             0 => bs = if which_eff == 0 { *rng.pick(&[0u32, 1, 2, 4, 6 + 1, 3 * 5, u32::MAX]) } else { *rng.pick(&[31u32, 32, 64, 255]) },
             1 => {
                 if which_eff < 2 {
-                    b1 = gen_bh(rng, 64, true);
-                    while b1.len() <= 64 {
-                        b1.push(1 + (b1.len() % 60) as u8);
+                    if rng.chance(1, 2) {
+                        b1 = gen_bh_just_over(rng, 64);
+                        if b1.len() <= 64 {
+                            let last = *b1.last().unwrap_or(&1);
+                            while b1.len() <= 64 {
+                                b1.push(last);
+                            }
+                        }
+                    } else {
+                        b1 = gen_bh(rng, 64, true);
+                        while b1.len() <= 64 {
+                            b1.push(1 + (b1.len() % 60) as u8);
+                        }
                     }
                 } else {
                     len1 = *rng.pick(&[65u8, 100, 255]);
@@ -1685,8 +1701,19 @@ fn gen_ctor(rng: &mut Rng, dst: u8, out_of_contract: bool) -> Op {
             }
             2 => {
                 if which_eff < 2 {
-                    while b2.len() <= c2 {
-                        b2.push(1 + (b2.len() % 60) as u8);
+                    if rng.chance(1, 2) {
+                        // over-long, but with runs: collapsible into the capacity
+                        b2 = gen_bh_just_over(rng, c2);
+                        if b2.len() <= c2 {
+                            let last = *b2.last().unwrap_or(&1);
+                            while b2.len() <= c2 {
+                                b2.push(last);
+                            }
+                        }
+                    } else {
+                        while b2.len() <= c2 {
+                            b2.push(1 + (b2.len() % 60) as u8);
+                        }
                     }
                 } else {
                     len2 = (c2 as u8) + *rng.pick(&[1u8, 2, 50]);
